@@ -402,7 +402,20 @@ pub fn run_case(c: &Case, prop: Prop) -> CaseResult {
     r.map_err(|e| e.0)
 }
 
+/// A port handed out by `free_port` can be taken by another thread of the check before the server
+/// binds it: such a set-up failure is retried with fresh ports.
 fn run_once(c: &Case, prop: Prop) -> Result<Obs, (Fail, bool)> {
+    let mut last = None;
+    for _ in 0..4 {
+        match run_once_inner(c, prop) {
+            Err((f, _)) if f.sig == "harness/setup" => last = Some(f),
+            r => return r,
+        }
+    }
+    Err((last.unwrap(), false))
+}
+
+fn run_once_inner(c: &Case, prop: Prop) -> Result<Obs, (Fail, bool)> {
     let nl = c.listeners.len().clamp(1, 2);
     let workers = c.workers.clamp(1, 3);
     let limit = if c.limit >= 12 { 12 } else { c.limit.clamp(1, 4) };
@@ -414,6 +427,7 @@ fn run_once(c: &Case, prop: Prop) -> Result<Obs, (Fail, bool)> {
     let mut uds = vec![];
     // listeners registered by address (bind / bind_uds): (logical index, addresses) / (index, path)
     let mut tcp_bind: Vec<(usize, Vec<std::net::SocketAddr>)> = vec![];
+    let mut used_ports: Vec<u16> = vec![];
     let mut uds_bind: Vec<(usize, std::path::PathBuf)> = vec![];
     let needs_fd = c.ops.iter().any(|o| matches!(o, Op::Inject { .. } | Op::BackoffBusy { .. }));
     let bind_mode = if needs_fd { 0 } else { c.bind_mode % 3 };
@@ -426,9 +440,20 @@ fn run_once(c: &Case, prop: Prop) -> Result<Obs, (Fail, bool)> {
                 tcp.push((i, l));
             }
             LKind::Tcp => {
-                let a = free_port().map_err(|e| (Fail::new("harness/setup", format!("{e}")), false))?;
+                // ports not yet used by this case (a released port can be handed out again)
+                let mut fresh = || -> Result<std::net::SocketAddr, (Fail, bool)> {
+                    for _ in 0..20 {
+                        let a = free_port().map_err(|e| (Fail::new("harness/setup", format!("{e}")), false))?;
+                        if !used_ports.contains(&a.port()) {
+                            used_ports.push(a.port());
+                            return Ok(a);
+                        }
+                    }
+                    Err((Fail::new("harness/setup", "no fresh port"), false))
+                };
+                let a = fresh()?;
                 if bind_mode == 2 {
-                    let b = free_port().map_err(|e| (Fail::new("harness/setup", format!("{e}")), false))?;
+                    let b = fresh()?;
                     addrs.push(LAddr::Tcp2(a, b, std::cell::Cell::new(false)));
                     tcp_bind.push((i, vec![a, b]));
                 } else {
